@@ -1,2 +1,283 @@
 import DuneVerif.Common.Proto
-def main : IO Unit := DV.runDriver fun _ => "bad-op"
+import DuneVerif.Model.C02
+import DuneVerif.Gen.C02
+/-! line-protocol driver for C02
+
+  `<field> <op> <rep> <n> <piv> <A> [<b>]`
+    field = gf | f64 | ld | c64        (ld: the model computes in double)
+    op    = solve | invert | det | fmhinv | fmhinvT
+    rep   = fm | dm | diag             (diag: `<A>` lists the n diagonal entries)
+    piv   = 1 | 0
+    `<A>` row-major `[a00,a01,…]`; gf: residues; f64/ld: IEEE-754 binary64 bit patterns in decimal; c64: re,im pairs
+
+  The closed forms (n ≤ 3) come from `DV.C02.Gen` (regenerated from the source), the LU path (n ≥ 4) and
+  DiagonalMatrix from `DV.C02`.
+-/
+open DV DV.C02
+
+namespace DV.C02.Drv
+
+inductive Ans (α : Type) where
+  | val (x : α)
+  | err            -- FMatrixError
+  | unspec         -- the property does not fix the behaviour (singular n ≤ 3 / singular diagonal / unpivoted breakdown)
+
+section Generic
+variable {K Q : Type} [Add K] [Sub K] [Mul K] [Div K] [Neg K] [OfNat K 0] [OfNat K 1]
+variable [LT Q] [DecidableLT Q] [BEq Q] [OfNat Q 0]
+
+def matOfArr (n : Nat) (a : Array K) : Mat n K := (⟨fun i j => a.getD (i.1 * n + j.1) (0 : K)⟩ : Mat n K).memo
+def vecOfArr (n : Nat) (a : Array K) : Vec n K := (⟨fun i => a.getD i.1 (0 : K)⟩ : Vec n K).memo
+def matToList {n : Nat} (A : Mat n K) : List K :=
+  (List.finRange n).flatMap fun i => (List.finRange n).map fun j => A.f i j
+def vecToList {n : Nat} (v : Vec n K) : List K := (List.finRange n).map v.f
+
+/-- `DenseMatrix::determinant(doPivoting)` -/
+def detDense (piv : Bool) (absval : K → Q) : (n : Nat) → Mat n K → K
+  | 1, A => Gen.det1 (A.f 0 0)
+  | 2, A => Gen.det2 (A.f 0 0) (A.f 0 1) (A.f 1 0) (A.f 1 1)
+  | 3, A => Gen.det3 (A.f 0 0) (A.f 0 1) (A.f 0 2) (A.f 1 0) (A.f 1 1) (A.f 1 2) (A.f 2 0) (A.f 2 1) (A.f 2 2)
+  | _, A => detLU piv absval A
+
+/-- `DenseMatrix::solve(x, b, doPivoting)` -/
+def solveDense (piv : Bool) (absval : K → Q) : (n : Nat) → Mat n K → Vec n K → Res (List K)
+  | 1, A, b => let r := Gen.solve1 (A.f 0 0) (b.f 0); .ok [r.x0]
+  | 2, A, b => let r := Gen.solve2 (A.f 0 0) (A.f 0 1) (A.f 1 0) (A.f 1 1) (b.f 0) (b.f 1); .ok [r.x0, r.x1]
+  | 3, A, b =>
+    let r := Gen.solve3 (A.f 0 0) (A.f 0 1) (A.f 0 2) (A.f 1 0) (A.f 1 1) (A.f 1 2) (A.f 2 0) (A.f 2 1) (A.f 2 2)
+      (b.f 0) (b.f 1) (b.f 2)
+    .ok [r.x0, r.x1, r.x2]
+  | _, A, b => match solveLU piv absval A b with
+    | .ok x => .ok (vecToList x)
+    | .fmatrixError => .fmatrixError
+
+def m2list (r : Gen.M2 K) : List K := [r.m00, r.m01, r.m10, r.m11]
+def m3list (r : Gen.M3 K) : List K := [r.m00, r.m01, r.m02, r.m10, r.m11, r.m12, r.m20, r.m21, r.m22]
+
+/-- `DenseMatrix::invert(doPivoting)` -/
+def invertDense (piv : Bool) (absval : K → Q) : (n : Nat) → Mat n K → Res (List K)
+  | 1, A => .ok [(Gen.invert1 (A.f 0 0)).m00]
+  | 2, A => .ok (m2list (Gen.invert2 (A.f 0 0) (A.f 0 1) (A.f 1 0) (A.f 1 1)))
+  | 3, A => .ok (m3list (Gen.invert3 (A.f 0 0) (A.f 0 1) (A.f 0 2) (A.f 1 0) (A.f 1 1) (A.f 1 2)
+      (A.f 2 0) (A.f 2 1) (A.f 2 2)))
+  | _, A => match invertLU piv absval A with
+    | .ok B => .ok (matToList B)
+    | .fmatrixError => .fmatrixError
+
+/-- `FMatrixHelp::invertMatrix` (`tr = false`) / `invertMatrix_retTransposed` (`tr = true`) -/
+def fmhInvert (tr : Bool) : (n : Nat) → Mat n K → Option (K × List K)
+  | 1, A => let r := (if tr then Gen.fmhInvertT1 (A.f 0 0) else Gen.fmhInvert1 (A.f 0 0)); some (r.1, [r.2.m00])
+  | 2, A =>
+    let r := (if tr then Gen.fmhInvertT2 (A.f 0 0) (A.f 0 1) (A.f 1 0) (A.f 1 1)
+              else Gen.fmhInvert2 (A.f 0 0) (A.f 0 1) (A.f 1 0) (A.f 1 1))
+    some (r.1, m2list r.2)
+  | 3, A =>
+    let r := (if tr then Gen.fmhInvertT3 (A.f 0 0) (A.f 0 1) (A.f 0 2) (A.f 1 0) (A.f 1 1) (A.f 1 2)
+                (A.f 2 0) (A.f 2 1) (A.f 2 2)
+              else Gen.fmhInvert3 (A.f 0 0) (A.f 0 1) (A.f 0 2) (A.f 1 0) (A.f 1 1) (A.f 1 2)
+                (A.f 2 0) (A.f 2 1) (A.f 2 2))
+    some (r.1, m3list r.2)
+  | _, _ => none
+
+/-- does the pivoted decomposition run through (model's own verdict "A is nonsingular", n ≥ 4) -/
+def pivotedOk (absval : K → Q) {n : Nat} (A : Mat n K) : Bool :=
+  (luDecomp true absval (detFunc : Func n K K) A (1 : K)).ok
+
+end Generic
+
+/-! ### GF(32003) -/
+
+def fpList (l : List Fp) : String := showList (l.map (·.v))
+
+def isZero (a : Fp) : Bool := a.v == 0
+
+/-- model's verdict on singularity for the dense representations -/
+def gfSingular (n : Nat) (A : Mat n Fp) : Bool :=
+  if n ≤ 3 then isZero (detDense true Fp.absval n A) else !(pivotedOk Fp.absval A)
+
+def gfDense (op : String) (n : Nat) (piv : Bool) (A : Mat n Fp) (b : Option (Vec n Fp)) : String :=
+  let sing := gfSingular n A
+  match op, b with
+  | "det", none =>
+    if n ≤ 3 then toString (detDense piv Fp.absval n A).v
+    else if sing then toString (detDense piv Fp.absval n A).v
+    else if piv then toString (detDense piv Fp.absval n A).v
+    else -- unpivoted: defined iff the unpivoted decomposition runs through
+      if (luDecomp false Fp.absval (detFunc : Func n Fp Fp) A (1 : Fp)).ok then toString (detDense piv Fp.absval n A).v
+      else "unspecified"
+  | "solve", some b =>
+    if n ≤ 3 ∧ sing then "unspecified" else
+    match solveDense piv Fp.absval n A b with
+    | .ok x => fpList x
+    | .fmatrixError => if sing then "ERR:FMatrix" else "unspecified"
+  | "invert", none =>
+    if n ≤ 3 ∧ sing then "unspecified" else
+    match invertDense piv Fp.absval n A with
+    | .ok x => fpList x
+    | .fmatrixError => if sing then "ERR:FMatrix" else "unspecified"
+  | "fmhinv", none | "fmhinvT", none =>
+    if sing then "unspecified" else
+    match fmhInvert (op == "fmhinvT") n A with
+    | some (d, l) => toString d.v ++ " " ++ fpList l
+    | none => "bad-op"
+  | _, _ => "bad-op"
+
+def gfDiag (op : String) (n : Nat) (d : Vec n Fp) (b : Option (Vec n Fp)) : String :=
+  let sing := (vecToList d).any isZero
+  match op, b with
+  | "det", none => match n, d with
+    | 0, _ => "bad-op"
+    | _ + 1, d => toString (detDiag d).v
+  | "solve", some b => if sing then "unspecified" else fpList (vecToList (solveDiag d b))
+  | "invert", none => if sing then "unspecified" else fpList (vecToList (invertDiag d))
+  | _, _ => "bad-op"
+
+/-! ### floating point: the model computes in double and reports whether its own residual is small -/
+
+section Flt
+variable {K : Type} [Add K] [Sub K] [Mul K] [Div K] [Neg K] [OfNat K 0] [OfNat K 1]
+
+def eps : Float := 2.220446049250313e-16
+
+def fmax (l : List Float) : Float := l.foldl (fun a b => if a < b then b else a) 0.0
+def fsum (l : List Float) : Float := l.foldl (· + ·) 0.0
+def ksum (l : List K) : K := l.foldl (· + ·) (0 : K)
+
+/-- max-row-sum norm of a row-major n×n list -/
+def normInf (mag : K → Float) (n : Nat) (a : Array K) : Float :=
+  fmax ((List.range n).map fun i => fsum ((List.range n).map fun j => mag (a.getD (i * n + j) 0)))
+
+def tolOf (n : Nat) : Float := 100.0 * (n * n).toFloat * eps
+
+/-- ‖A x − b‖∞ ≤ tol (‖A‖∞ ‖x‖∞ + ‖b‖∞) -/
+def solveResidOk (mag : K → Float) (n : Nat) (a : Array K) (x b : Array K) : Bool :=
+  let r := fmax ((List.range n).map fun i =>
+    mag (ksum ((List.range n).map fun j => a.getD (i * n + j) 0 * x.getD j 0) - b.getD i 0))
+  let xn := fmax (x.toList.map mag)
+  let bn := fmax (b.toList.map mag)
+  r ≤ tolOf n * (normInf mag n a * xn + bn)
+
+def mulArr (n : Nat) (a b : Array K) : Array K :=
+  ((List.range n).flatMap fun i => (List.range n).map fun j =>
+    ksum ((List.range n).map fun k => a.getD (i * n + k) 0 * b.getD (k * n + j) 0)).toArray
+
+/-- ‖A B − I‖max and ‖B A − I‖max ≤ tol ‖A‖∞ ‖B‖∞ -/
+def invertResidOk (mag : K → Float) (n : Nat) (a b : Array K) : Bool :=
+  let idm : Array K := ((List.range n).flatMap fun i => (List.range n).map fun j => if i = j then (1 : K) else 0).toArray
+  let dev (m : Array K) : Float := fmax ((List.range (n * n)).map fun t => mag (m.getD t 0 - idm.getD t 0))
+  let bound := tolOf n * normInf mag n a * normInf mag n b
+  dev (mulArr n a b) ≤ bound && dev (mulArr n b a) ≤ bound
+
+/-- Laplace expansion along the first row (driver-side reference for the determinant tolerance test) -/
+def laplace (a : Array K) (n : Nat) : (fuel : Nat) → (row : Nat) → (cols : List Nat) → K
+  | 0, _, _ => 1
+  | fuel + 1, row, cols =>
+    if cols.isEmpty then 1 else
+    (cols.zipIdx.foldl (fun (acc : K × Bool) (c, _) =>
+      let sub := laplace a n fuel (row + 1) (cols.filter (· ≠ c))
+      let t := a.getD (row * n + c) 0 * sub
+      (if acc.2 then acc.1 - t else acc.1 + t, !acc.2)) ((0 : K), false)).1
+
+/-- |det − reference| ≤ tol ∏ᵢ ‖rowᵢ‖₁ -/
+def detOk (mag : K → Float) (n : Nat) (a : Array K) (d : K) : Bool :=
+  let ref := laplace a n n 0 (List.range n)
+  let had := ((List.range n).map fun i => fsum ((List.range n).map fun j => mag (a.getD (i * n + j) 0))).foldl (· * ·) 1.0
+  mag (d - ref) ≤ tolOf n * had
+
+variable {Q : Type} [LT Q] [DecidableLT Q] [BEq Q] [OfNat Q 0]
+
+def fltCase (mag : K → Float) (absval : K → Q) (op rep : String) (n : Nat) (piv : Bool)
+    (a : Array K) (b : Option (Array K)) : String :=
+  let ok (t : Bool) : String := if t then "resid-ok" else "resid-bad"
+  if rep == "diag" then
+    let d : Vec n K := vecOfArr n a
+    let full : Array K := ((List.range n).flatMap fun i => (List.range n).map fun j =>
+      if i = j then a.getD i 0 else (0 : K)).toArray
+    match op, b with
+    | "solve", some b => ok (solveResidOk mag n full (vecToList (solveDiag d (vecOfArr n b))).toArray b)
+    | "invert", none =>
+      let inv := (vecToList (invertDiag d)).toArray
+      let fullInv : Array K := ((List.range n).flatMap fun i => (List.range n).map fun j =>
+        if i = j then inv.getD i 0 else (0 : K)).toArray
+      ok (invertResidOk mag n full fullInv)
+    | "det", none => match n, d with
+      | 0, _ => "bad-op"
+      | m + 1, d => ok (detOk mag (m + 1) full (detDiag d))
+    | _, _ => "bad-op"
+  else
+    let A : Mat n K := matOfArr n a
+    match op, b with
+    | "solve", some b => match solveDense piv absval n A (vecOfArr n b) with
+      | .ok x => ok (solveResidOk mag n a x.toArray b)
+      | .fmatrixError => "ERR:FMatrix"
+    | "invert", none => match invertDense piv absval n A with
+      | .ok x => ok (invertResidOk mag n a x.toArray)
+      | .fmatrixError => "ERR:FMatrix"
+    | "det", none => ok (detOk mag n a (detDense piv absval n A))
+    | "fmhinv", none | "fmhinvT", none => match fmhInvert (op == "fmhinvT") n A with
+      | some (d, l) =>
+        let l' : Array K := if op == "fmhinvT" then
+            ((List.range n).flatMap fun i => (List.range n).map fun j => l.toArray.getD (j * n + i) 0).toArray
+          else l.toArray
+        ok (detOk mag n a d && invertResidOk mag n a l')
+      | none => "bad-op"
+    | _, _ => "bad-op"
+end Flt
+
+def floatOfBits (i : Int) : Option Float :=
+  if 0 ≤ i ∧ i < 2 ^ 64 then some (Float.ofBits i.toNat.toUInt64) else none
+
+def cxOfBits : List Int → Option (List Cx)
+  | [] => some []
+  | [_] => none
+  | r :: i :: rest => do
+    let r ← floatOfBits r
+    let i ← floatOfBits i
+    let t ← cxOfBits rest
+    pure (⟨r, i⟩ :: t)
+
+def handle (line : String) : String :=
+  match tokens line with
+  | field :: op :: rep :: ns :: ps :: as :: rest =>
+    match ns.toNat?, ps.toNat?, parseIntList? as with
+    | some n, some p, some al =>
+      if n < 1 ∨ n > 12 ∨ p > 1 then "bad-op" else
+      let piv := p == 1
+      let bl : Option (Option (List Int)) := match rest with
+        | [] => some none
+        | [bs] => (parseIntList? bs).map some
+        | _ => none
+      match bl with
+      | none => "bad-op"
+      | some bl =>
+      let needB := op == "solve"
+      if needB != bl.isSome then "bad-op" else
+      let cnt := if rep == "diag" then n else n * n
+      let scal := if field == "c64" then 2 else 1
+      if al.length != cnt * scal ∨ (bl.map (·.length)).getD (n * scal) != n * scal then "bad-op" else
+      if rep != "fm" ∧ rep != "dm" ∧ rep != "diag" then "bad-op" else
+      if (op == "fmhinv" ∨ op == "fmhinvT") ∧ (rep != "fm" ∨ n > 3) then "bad-op" else
+      match field with
+      | "gf" =>
+        if al.any (fun x => x < 0 ∨ x ≥ P) ∨ (bl.getD []).any (fun x => x < 0 ∨ x ≥ P) then "bad-op" else
+        let a : Array Fp := (al.map Fp.ofInt).toArray
+        let b : Option (Array Fp) := bl.map fun l => (l.map Fp.ofInt).toArray
+        if rep == "diag" then gfDiag op n (vecOfArr n a) (b.map (vecOfArr n))
+        else gfDense op n piv (matOfArr n a) (b.map (vecOfArr n))
+      | "f64" | "ld" =>
+        match al.mapM floatOfBits, (bl.getD []).mapM floatOfBits with
+        | some a, some b =>
+          fltCase (K := Float) Float.abs Float.abs op rep n piv a.toArray (if needB then some b.toArray else none)
+        | _, _ => "bad-op"
+      | "c64" =>
+        match cxOfBits al, cxOfBits (bl.getD []) with
+        | some a, some b =>
+          fltCase (K := Cx) Cx.absval Cx.absval op rep n piv a.toArray (if needB then some b.toArray else none)
+        | _, _ => "bad-op"
+      | _ => "bad-op"
+    | _, _, _ => "bad-op"
+  | _ => "bad-op"
+
+end DV.C02.Drv
+
+def main : IO Unit := DV.runDriver DV.C02.Drv.handle
